@@ -295,7 +295,7 @@ def getitem_events(tier, max_leaves=None):
 
     @st.composite
     def one(draw):
-        n = draw(st.integers(1, 3))
+        n = draw(st.sampled_from([1, 2, 3]))
         ks = draw(st.lists(keys, min_size=n, max_size=n, unique_by=lambda d: repr(gv.build(d)) if _hashable(d) else repr(d)))
         # keys must be pairwise different under ==/hash
         built = []
@@ -366,7 +366,7 @@ def aliasing_value(tier):
 
 @st.composite
 def program(draw, tier="quick", max_sites=3, **kw):
-    n = draw(st.integers(1, max_sites))
+    n = draw(st.sampled_from(list(range(1, max_sites + 1))))
     sites = [draw(site(tier, **kw)) for _ in range(n)]
     # tests: split the sites over 1-2 test functions; module-level sites may be shared
     if n > 1 and draw(st.booleans()):
@@ -503,7 +503,7 @@ def ordered_family_with_prev(draw, tier):
 
 @st.composite
 def program_with_prev(draw, tier="quick", max_sites=3, min_sites=1, **kw):
-    n = draw(st.integers(min_sites, max_sites))
+    n = draw(st.sampled_from(list(range(min_sites, max_sites + 1))))
     sites = [draw(site_with_prev(tier, **kw)) for _ in range(n)]
     if n > 1 and draw(st.booleans()):
         cut = draw(st.integers(1, n - 1))
